@@ -194,15 +194,17 @@ CLAIMED = {
         "(two-ring version of (a): plain run in K, bookkeeping in L, ev a ring homomorphism and dv a derivation over it), "
         "C02_jacobian_is_derivative (K = dual numbers over C: for any family of programs x -> prog(x) with arrays differentiable at x0, "
         "the Jacobian entry the bookkeeping returns at x0 IS d/dx of the simulated signal, is_derive on re and im; by forward-mode "
-        "soundness of the plain run, induction over programs) and C02_real_sequence_jacobian (end to end for every sequence of "
-        "T(c x + b, phi), E(tau, T1, c x + b, g), constant T/E and shifts with the translated T_d_alpha / E_d_T2). The clause 'whatever non-differentiable "
+        "soundness of the plain run, induction over programs), C02_real_sequence_jacobian and C02_real_operators_jacobian (end to end: "
+        "every sequence of T, Phi, E, P, R with ONE parameter each driven affinely by the variable -- alpha, phi; tau, T1, T2, g; "
+        "Re rT, rL, r0 -- declared {v: {param: c}}, constant operators and shifts with or without nmax, using the TRANSLATED "
+        "derivative arrays). The clause 'whatever non-differentiable "
         "operators occur' is REFUTED (jacobian_refuted_spoiler) and listed as a known finding; the model is 1-D: for n-D shifts the "
         "implementation shifts every partial state matrix on its own (pruning/merging independently), a second known finding found "
         "by testing (exact with integer shifts and prune=0, which the n-D stream checks against central differences).",
    design_ref="DESIGN.md section 4 C02, section 9 item 10",
    note=TB + "Translator validated by the Interval tie; Model/Diff.v tied to diff.py by exact correspondence of sm.order1 after every operator of "
-        "generated programs (all order1 forms). The end-to-end theorem is instantiated for alpha and T2 driven affinely by one variable; other parameters (phi, tau, T1, g, "
-        "P, R) follow the same pattern from (b) and C02_jacobian_is_derivative but are not instantiated. Vectorised parameters / axes= are C07's. Axioms: none for (a); classical reals + funext + classic for (b).",
+        "generated programs (all order1 forms). In the end-to-end theorem each operator has at most one parameter driven by the variable (several parameters of ONE operator "
+        "driven at once need the two-variable chain rule and are not instantiated; several operators sharing the variable are covered). Vectorised parameters / axes= are C07's. Axioms: none for (a); classical reals + funext + classic for (b).",
    technique="Coq proof (derivation-exactness by induction over programs; real analysis on translated coefficients) + translator + exact correspondence"),
  "C19": dict(
    text="Machine-checked proof (Coq) on the literal bookkeeping model of diff.py: diff_nonintrusive (the zeroth-order state of a "
